@@ -505,3 +505,74 @@ func ruleInsertTopWithinCheckedCapacity(c *Ctx) {
 	c.check(n > 0 && okc, R, "Insert:top-within-the-checked-capacity", pos, fmt.Sprintf("%d store(s) of registry.top, each under a capacity test for at least that size", n),
 		"registry.Insert stores a top that the capacity test before it does not cover (the test asks for fewer slots than the top it then sets): in a growable registry whose last value sits in the last slot the array is not grown — calling an object through __call there loses its last argument and dies with 'slice bounds out of range'")
 }
+
+// ruleReadsAfterFlush: F138. C19 "the same history applied to an in-memory byte sequence with a single
+// cursor": output still held in the handle's bufio.Writer is written out before the handle is read —
+// every call that consumes from file.reader in the io library is dominated by flushBeforeRead (or by
+// fileIsReadable, which calls it).
+func ruleReadsAfterFlush(c *Ctx) {
+	const R = "R19-reconcile"
+	p := c.P
+	flush := c.need(R, "lua", "(*lFile).flushBeforeRead")
+	readable := p.Fn("lua", "fileIsReadable")
+	rF := p.Field("lua", "lFile", "reader")
+	if flush == nil || readable == nil || rF == nil {
+		return
+	}
+	c.Sites++
+	c.check(len(callsTo(readable, flush)) > 0, R, "fileIsReadable:flushes-pending-output", p.pos(readable.Pos()), "fileIsReadable calls flushBeforeRead", "fileIsReadable does not flush pending output: a read that follows a buffered write happens at the descriptor's old position")
+	n := 0
+	for _, fn := range p.srcFuncs {
+		if fn.Pkg == nil || fn.Pkg.Pkg.Path() != luaPath || fn.Blocks == nil || !strings.HasPrefix(p.pos(fn.Pos()), "iolib.go:") || fn == flush {
+			continue
+		}
+		if fn.Name() == "AbandonReadBuffer" {
+			continue // gives read-ahead back; consumes nothing
+		}
+		g := p.G(fn)
+		var first ssa.Instruction
+		allInstrs(fn, func(in ssa.Instruction) {
+			cc := callOf(in)
+			if cc == nil || !g.Live(in) || first != nil {
+				return
+			}
+			consumes := false
+			for _, a := range cc.Args {
+				if _, ok := loadsField(a, rF); ok {
+					consumes = true
+				}
+				if mi, ok := a.(*ssa.MakeInterface); ok {
+					if _, ok := loadsField(mi.X, rF); ok {
+						consumes = true
+					}
+				}
+			}
+			if cc.IsInvoke() {
+				if _, ok := loadsField(cc.Value, rF); ok {
+					consumes = true
+				}
+			}
+			if sc := cc.StaticCallee(); sc != nil && (sc.Name() == "Buffered" || sc.Name() == "NewReaderSize") {
+				consumes = false
+			}
+			if consumes {
+				first = in
+			}
+		})
+		if first == nil {
+			continue
+		}
+		n++
+		c.Sites++
+		c.touch(fn)
+		dom := false
+		for _, f := range append(callsTo(fn, flush), callsTo(fn, readable)...) {
+			if g.Dominates(f, first) {
+				dom = true
+			}
+		}
+		c.check(dom, R, fn.Name()+":pending-output-flushed-before-the-read", p.ipos(first), "the first use of the reader follows flushBeforeRead / fileIsReadable",
+			fname(fn)+" reads from the handle without flushing pending buffered output first: with setvbuf('full') a write followed directly by a read reads at the old position, and the written bytes land later wherever the read left the descriptor")
+	}
+	c.check(n >= 3, R, "read-entry-points", "-", fmt.Sprintf("%d functions that consume from file.reader examined", n), "functions that read from file.reader not found")
+}
